@@ -13,6 +13,6 @@ PROP = {
         "lanes": [
             native("c01"),
             miri("c01", seeds_q=0, seeds_t=16, scale=1, args={"cases": 2, "shapes": 3}),
-            san("asan", "c01", scale=10),
+            san("asan", "c01", scale=1),
         ],
     }
